@@ -31,3 +31,31 @@ if begin not in s:
 s = s[:s.index(begin) + len(begin)] + "\n" + table + "\n" + s[s.index(end):]
 open(p, "w").write(s)
 print(len(rows), "rows")
+
+
+# ---- per-property "as built" table in §4 (from MANIFEST.json, which gen_manifest.py derives from the binary) ----
+def prop_table():
+    import json, os, re
+    here = os.path.dirname(os.path.dirname(os.path.abspath(__file__)))
+    m = json.load(open(os.path.join(here, "MANIFEST.json")))
+    rows = ["| property | level | rules run (quick and thorough) | what is decided / what is not |", "|---|---|---|---|"]
+    for c in m["checks"]:
+        note = c.get("level_note", "")
+        rules = ""
+        mm = re.search(r"Rules run: ([^.]*)\.", note)
+        if mm:
+            rules = mm.group(1).strip()
+            note = note[:mm.start()].strip()
+        txt = (c["level_claimed"]["text"] + " " + note).replace("|", "\\|").replace("\n", " ")
+        rows.append("| %s | %s | %s | %s |" % (c["property_id"], c["level_claimed"]["category"], rules, txt))
+    for na in m.get("not_applicable", []):
+        rows.append("| %s | not applicable | — | %s |" % (na.get("property_id", "?"), na.get("reason", "").replace("|", "\\|")))
+    dp = os.path.join(here, "DESIGN.md")
+    d = open(dp).read()
+    b, e = "<!-- PROP-TABLE-BEGIN -->", "<!-- PROP-TABLE-END -->"
+    if b in d and e in d:
+        d = d[:d.index(b) + len(b)] + "\n" + "\n".join(rows) + "\n" + d[d.index(e):]
+        open(dp, "w").write(d)
+        print(len(rows) - 2, "property rows")
+
+prop_table()
